@@ -191,6 +191,17 @@ class Renderer:
                 sigparts.append("%s=%s" % (p, f["defaults"][p]))
             else:
                 sigparts.append(p)
+        if kind == "repr":
+            # not logged: value reprs inside violation messages call it at unspecified moments
+            return ["%sdef __repr__(self):" % ind,
+                    "%s    return '<%s>'" % (ind, qual.split(".")[0])]
+        if kind == "getattribute":
+            return ["%sdef __getattribute__(self, name):" % ind,
+                    "%s    return object.__getattribute__(self, name)" % ind]
+        if kind == "pysetattr":
+            return ["%sdef __setattr__(self, name, value):" % ind,
+                    "%s    V.body(%r, {'ret': 'None'}, {'self': self})" % (ind, qual),
+                    "%s    object.__setattr__(self, name, value)" % ind]
         lines = []
         if kind == "static":
             lines.append("%s@staticmethod" % ind)
@@ -216,7 +227,7 @@ class Renderer:
             stmts.append("self.plain = 0")
             stmts.append(call)
             for s in f.get("ctor_calls", []):
-                stmts.append("self.%s()" % s)
+                stmts.append("self.%s(None)" % s)
             if sup == "last":
                 stmts.append("super().__init__()")
             lines += [bi + s for s in stmts]
@@ -257,12 +268,14 @@ class Renderer:
         lines.append(head + ":")
         body = []
         if shape == "slots":
-            body.append("    __slots__ = ('plain', 'other', '__weakref__')" if not bases else "    __slots__ = ()")
+            body.append("    __slots__ = ('plain', 'other')" if not bases else "    __slots__ = ()")
         if shape == "dataclass":
             body.append("    plain: object = None")
             body.append("    other: object = None")
         for f in c.get("members", []):
-            body += self.func_lines(f, "    ", "%s.%s" % (c["name"], {"init": "__init__", "new": "__new__"}.get(
+            body += self.func_lines(f, "    ", "%s.%s" % (c["name"], {
+                "init": "__init__", "new": "__new__", "repr": "__repr__", "pysetattr": "__setattr__",
+                "getattribute": "__getattribute__"}.get(
                 f["kind"], f["name"]) + ({"setter": ".set", "deleter": ".del"}.get(f["kind"], ""))))
             body.append("")
         if not body:
